@@ -177,7 +177,7 @@ func (g G) tamper(label string, m *MsgSpec) {
 		case "post", "soap":
 			ops = append(common, "strip_sig", "drop_keyinfo", "foreign_keyinfo", "sigvalue_flip", "digest_flip", "empty_sigvalue", "post_deflate", "wrap", "sigvalue_flip")
 		default:
-			ops = append(common, "strip_sigparams", "sig_flip", "swap_sigalg", "foreign_sig", "dup_param", "truncate_query", "move-post", "empty-sig", "sig_flip")
+			ops = append(common, "strip_sigparams", "sig_flip", "swap_sigalg", "foreign_sig", "dup_param", "truncate_query", "move-post", "empty-sig", "sig_flip", "dsa_forge")
 		}
 		switch op := g.pick(lab+".op", ops...); op {
 		case "field-acs":
@@ -238,6 +238,8 @@ func (g G) tamper(label string, m *MsgSpec) {
 			m.Tamper = append(m.Tamper, Tamper{Op: "dup_param", S: g.pick(lab+".dp", "SAMLRequest", "RelayState", "Signature", "SigAlg")})
 		case "truncate_query":
 			m.Tamper = append(m.Tamper, Tamper{Op: "truncate_query", A: g.intn(lab+".off", 3000)})
+		case "dsa_forge":
+			m.Tamper = append(m.Tamper, Tamper{Op: "dsa_forge", A: g.intn(lab+".dsa", 2)})
 		case "move-post":
 			m.Method = "POST-move"
 		case "empty-sig":
